@@ -25,6 +25,14 @@ pub fn exec(t: &[&str]) -> Option<String> {
             Some(format!("{} {} {}", hex(&b), if na { "na".to_string() } else { hex(&tx.hash().0) }, hex(&tx.prefix.hash().0))) }
         // embedded parse (what `Block` decoding does with the miner transaction): id, prefix hash, bytes consumed
         ["c05_txid_partial", h] => Some(match deserialize_partial::<Transaction>(&unhex(h)) { Ok((tx, k)) => format!("ok {} {} {}", hex(&tx.hash().0), hex(&tx.prefix.hash().0), k), Err(_) => "err".into() }),
+        // `TransactionPrefix::hash` on a prefix parsed on its own (strict): the hash of exactly the bytes received
+        ["c05_prefixhash", h] => Some(match deserialize::<TransactionPrefix>(&unhex(h)) { Ok(p) => format!("ok {}", hex(&p.hash().0)), Err(_) => "err".into() }),
+        // a non-Null RingCT struct WITHOUT its prunable part (not the parse of any byte string): `Transaction::hash` uses its hard-coded constant
+        ["c05_id_noprun", rest @ ..] => { let mut tk = Toks { t: rest, i: 0 }; let mut tx = match desc::parse_tx(&mut tk) { Some(x) if tk.i == rest.len() => x, _ => return Some("bad-desc".into()) };
+            if tx.prefix.version.0 == 1 || tx.rct_signatures.sig.as_ref().map(|s| s.rct_type == RctType::Null).unwrap_or(true) { return Some("bad-desc".into()); }
+            tx.rct_signatures.p = None; Some(hex(&tx.hash().0)) }
+        // the embedded parse through a SHORT-READING reader (one byte per `read` call, a legal `io::Read`): same answer as `c05_txid_partial`
+        ["c05_txid_chunked", h] => Some(match decode_chunked::<Transaction>(&unhex(h)) { Some((tx, k)) => format!("ok {} {} {}", hex(&tx.hash().0), hex(&tx.prefix.hash().0), k), None => "err".into() }),
         ["c05_txid", h] => Some(match deserialize::<Transaction>(&unhex(h)) { Ok(tx) => format!("ok {} {}", hex(&tx.hash().0), hex(&tx.prefix.hash().0)), Err(_) => "err".into() }),
         _ => None,
     }
@@ -175,10 +183,10 @@ pub fn run_c03(o: &mut Out, tier: &str, seed: u64) {
         let s = if it < ns { sweep[it].clone() } else { shapes(&mut r, it - ns, big) }; let tx = gen::tx_of(&mut r, &s);
         o.stat(&format!("tx.v{}.rct{}.coinbase{}", s.version, if s.version == 1 || s.nin == 0 { -1 } else { gen::rct_num(s.rct) as i32 }, s.all_coinbase || s.coinbase_first));
         { let res = o.op(format!("c03_tx {}", desc::tx_desc(&tx)), true); o.direct(res != "bad-desc", "C03: a generated description is understood (not bad-desc)", format!("iteration {}", it), trunc(&res, 40), "bytes …".into()); }
-        if it % 6 == 0 { let nh = if it % 60 == 0 { big / 4 } else { r.below(6) as usize }; let b = gen::block(&mut r, nh); o.stat("block"); o.op(format!("c03_block {}", desc::block_desc(&b)), true); }
+        if it % 6 == 0 { let nh = if it % 60 == 0 { big / 4 } else { r.below(6) as usize }; let b = gen::block(&mut r, nh); o.stat("block"); described(o, format!("c03_block {}", desc::block_desc(&b)), None); }
     }
     // BulletproofPlus proof counts around the one-byte / varint boundary (known deviation at >= 128)
-    for nbp in [1usize, 2, 16, 127, 128, 129, 200, 255] { let tx = crate::c02::bpp_tx(nbp); o.op_keyed(format!("c03_tx {}", desc::tx_desc(&tx)), true, &format!("bulletproofplus-count={}", nbp)); }
+    for nbp in [1usize, 2, 16, 127, 128, 129, 200, 255] { let tx = crate::c02::bpp_tx(nbp); described(o, format!("c03_tx {}", desc::tx_desc(&tx)), Some(&format!("bulletproofplus-count={}", nbp))); }
     o.notes.push("descriptions printed from the library's public struct fields by name; all 7 RingCT types x both versions x coinbase/key inputs x plain/tagged outputs; ring up to 20, up to 20 inputs/outputs (a few with hundreds+ outputs); every case non-trivial".into());
     let thorough = tier == "thorough";
     // (2) counts at the one-/two-byte varint boundary in every count position (Bulletproof count of types 3/4/5, L/R rounds, inputs, ring, outputs)
@@ -210,6 +218,20 @@ pub fn run_c03(o: &mut Out, tier: &str, seed: u64) {
         o.direct(res == format!("{} eq", hex(b)), "C03: the description of a mainnet block serialises to the original mainnet bytes", trunc(&hex(b), 200), trunc(&res, 200), "original bytes, eq".into()); }
 }
 
+/// Family `id.short-read` (direct oracle, every generated / mutated-but-parsable / embedded / mainnet transaction): the transaction decoded
+/// from `b` through a SHORT-READING reader (`ChunkReader`, one byte per `read` call — a legal `io::Read`) must consume the same bytes and
+/// have the identifier and prefix hash of the transaction `t` decoded from the slice. A decoder that calls `read` where `read_exact` is
+/// needed fills only the first byte of a fixed-size field from such a reader. The failing input is recorded as the operation line
+/// `c05_txid_chunked <hex>` (replayable; with `as_op` the line also goes through the model / by-the-book comparison).
+fn short_read_id(o: &mut Out, b: &[u8], t: &Transaction, consumed: usize, family: &str, as_op: bool) {
+    o.stat(&format!("id.short-read.{}", family));
+    let what = "C05: id / prefix hash / consumed length of the transaction decoded through a short-reading reader (1 byte per read call) == those of the transaction decoded from the slice";
+    let want = format!("ok {} {} {}", hex(&t.hash().0), hex(&t.prefix.hash().0), consumed);
+    let line = format!("c05_txid_chunked {}", hex(b));
+    let got = if as_op { o.stat("id.short-read.op"); o.op(line.clone(), true) } else { match guarded(|| exec(&["c05_txid_chunked", &hex(b)])) { Ok(Some(x)) => x, Ok(None) => "bad-op".into(), Err(p) => format!("PANIC {}", p) } };
+    o.direct(got == want, what, if line.len() <= 200_000 { line } else { trunc(&line, 2000) }, got, want);
+}
+
 pub fn run_c05(o: &mut Out, tier: &str, seed: u64) {
     let mut r = Rng::new(seed);
     let n = if tier == "thorough" { 8000 } else { 900 };
@@ -219,13 +241,24 @@ pub fn run_c05(o: &mut Out, tier: &str, seed: u64) {
         let res = o.op(format!("c05_txid {}", hex(&b)), true);
         // the identifier of the DESCRIBED transaction (struct built field by field, never through the library's serialiser)
         // against the by-the-book bytes and id formula of Spec/Wire: an encoder slip cannot hide behind its own output
-        if it % 3 == 0 || s.rct == RctType::Full { o.stat("id.described"); o.op(format!("c03_tx {}", desc::tx_desc(&tx)), true); }
+        if it % 3 == 0 || s.rct == RctType::Full { o.stat("id.described"); described(o, format!("c03_tx {}", desc::tx_desc(&tx)), None); }
         o.direct(res != "err", "C05: the serialisation of a generated well-formed transaction parses (so that its id is defined by its bytes)", format!("c05_txid {}", trunc(&hex(&b), 400)), res.clone(), "ok …".into());
         o.stat(&format!("id.v{}.rct{}.{}", s.version, if s.version == 1 || s.nin == 0 { -1 } else { gen::rct_num(s.rct) as i32 }, res.split(' ').next().unwrap()));
         // mutated encodings that still parse: the id must follow the bytes
-        for _ in 0..3 { let m = gen::mutate(&mut r, &b); let res = o.op(format!("c05_txid {}", hex(&m)), false); if res != "err" { o.nontrivial.insert(hex(&m)); o.stat("id.mutated.ok"); } else { o.stat("id.mutated.err"); } }
+        for _ in 0..3 { let m = gen::mutate(&mut r, &b); let res = o.op(format!("c05_txid {}", hex(&m)), false); if res != "err" { o.nontrivial.insert(hex(&m)); o.stat("id.mutated.ok"); if let Ok(tm) = deserialize::<Transaction>(&m) { short_read_id(o, &m, &tm, m.len(), "mutated", false); } } else { o.stat("id.mutated.err"); } }
         // intrinsic: equal bytes => equal id; the id of a re-parsed tx equals the id of the original
-        if let Ok(t2) = deserialize::<Transaction>(&b) { o.direct(t2.hash() == tx.hash(), "C05: id(parse(serialize x)) == id(x)", format!("c05_txid {}", hex(&b)), hex(&t2.hash().0), hex(&tx.hash().0)); }
+        if let Ok(t2) = deserialize::<Transaction>(&b) { o.direct(t2.hash() == tx.hash(), "C05: id(parse(serialize x)) == id(x)", format!("c05_txid {}", hex(&b)), hex(&t2.hash().0), hex(&tx.hash().0));
+            short_read_id(o, &b, &t2, b.len(), "generated", it % 4 == 1); }
+        // the prefix parsed on its own: its hash is the hash of exactly those bytes (and one more byte is refused)
+        if it % 4 == 3 { let pb = serialize(&tx.prefix); o.stat("id.prefix-standalone"); let res = o.op(format!("c05_prefixhash {}", hex(&pb)), true);
+            o.direct(res == format!("ok {}", hex(&tx.prefix.hash().0)), "C05: prefix hash of the prefix parsed on its own == prefix hash of the transaction's prefix", format!("c05_prefixhash {}", hex(&pb)), trunc(&res, 100), hex(&tx.prefix.hash().0));
+            if it % 16 == 3 { let mut pb1 = pb.clone(); pb1.push(r.byte()); let res = o.op(format!("c05_prefixhash {}", hex(&pb1)), false);
+                o.direct(res == "err", "C05: a prefix followed by one more byte does not parse strictly as a prefix", format!("c05_prefixhash {}", hex(&pb1)), trunc(&res, 100), "err".into()); } }
+        // a blob cut short by 1..31 bytes (inside its last key / signature / extra byte) defines no identifier: strict parsing must refuse it
+        // (the format is prefix-free: Props/C05 `C05_no_id_for_proper_prefix`)
+        if it % 5 == 2 && b.len() > 32 { let j = *r.pick(&[1usize, 2, 8, 16, 31]); let cut = &b[..b.len() - j]; o.stat("id.cut-short");
+            let res = o.op(format!("c05_txid {}", hex(cut)), false);
+            o.direct(res == "err", "C05: a well-formed transaction cut short by 1..31 bytes does not parse strictly (a truncated blob defines no identifier)", format!("c05_txid {}", hex(cut)), trunc(&res, 200), "err".into()); }
     }
     o.notes.push("non-trivial = parsable transactions (generated: all types/versions; mutated ones that still parse)".into());
     let thorough = tier == "thorough";
@@ -236,11 +269,13 @@ pub fn run_c05(o: &mut Out, tier: &str, seed: u64) {
         let mut s = shape_of(version, nin, 2, 1, rct, false); s.nbp = 1; let tx = gen::tx_of(&mut r, &s); let b = serialize(&tx);
         let res = o.op(format!("c05_txid {}", hex(&b)), true); o.stat(&format!("id.version.{}.{}", parsed_version(&b), res.split(' ').next().unwrap()));
         o.direct(res != "err", "C05: a transaction with a version other than 1/2 parses (RingCT layout) and has an identifier", format!("c05_txid {}", trunc(&hex(&b), 300)), res.clone(), "ok …".into());
+        if let Ok(t2) = deserialize::<Transaction>(&b) { short_read_id(o, &b, &t2, b.len(), "version", nin == 1); }
         let m = mutate_deep(&mut r, &b); o.op(format!("c05_txid {}", hex(&m)), false); } } }
     // (3) counts at the varint width boundary (identifiers of large transactions; the BulletproofPlus count byte does not move p or q)
     for (label, tx) in boundary_txs(&mut r, thorough) { if !thorough && (label.starts_with("bp-count") && !label.ends_with(".128")) { continue; }
         let b = serialize(&tx); o.stat(&format!("id.boundary.{}", label.split('.').next().unwrap())); let res = o.op_keyed(format!("c05_txid {}", hex(&b)), true, &label);
-        o.direct(res != "err", "C05: the serialisation of a generated well-formed transaction parses (so that its id is defined by its bytes)", label.clone(), trunc(&res, 80), "ok …".into()); }
+        o.direct(res != "err", "C05: the serialisation of a generated well-formed transaction parses (so that its id is defined by its bytes)", label.clone(), trunc(&res, 80), "ok …".into());
+        if let Ok(t2) = deserialize::<Transaction>(&b) { short_read_id(o, &b, &t2, b.len(), "boundary", false); } }
     for nbp in [127usize, 128, 255] { let b = serialize(&crate::c02::bpp_tx(nbp)); o.stat("id.boundary.bpp-count"); let res = o.op_keyed(format!("c05_txid {}", hex(&b)), true, &format!("bpp-count={}", nbp));
         o.direct(res != "err", "C05: the serialisation of a generated well-formed transaction parses (so that its id is defined by its bytes)", format!("bpp_tx({})", nbp), trunc(&res, 80), "ok …".into()); }
     for (label, tx) in empty_ring_txs(&mut r) { let b = serialize(&tx); o.stat("id.empty-ring"); let res = o.op_keyed(format!("c05_txid {}", hex(&b)), true, &label);
@@ -253,11 +288,17 @@ pub fn run_c05(o: &mut Out, tier: &str, seed: u64) {
         let k = r.range(0, 40) as usize; let mut bs = b.clone(); bs.extend(if r.chance(1, 3) { b[..k.min(b.len())].to_vec() } else { r.bytes(k) });
         let res = o.op(format!("c05_txid_partial {}", hex(&bs)), true); o.stat("id.partial");
         o.direct(res == format!("ok {} {} {}", hex(&tx.hash().0), hex(&tx.prefix.hash().0), b.len()), "C05: id of an embedded parse = id of the transaction, consumed = its length", format!("c05_txid_partial {}", trunc(&hex(&bs), 300)), trunc(&res, 200), "ok id prefix-hash len".into());
+        if let Ok((tp, kp)) = deserialize_partial::<Transaction>(&bs) { short_read_id(o, &bs, &tp, kp, "embedded", it % 3 == 0); }
         for _ in 0..2 { let m = mutate_deep(&mut r, &b); let res = o.op(format!("c05_txid {}", hex(&m)), false); if res != "err" { o.nontrivial.insert(hex(&m)); o.stat("id.deep-splice.ok"); } else { o.stat("id.deep-splice.err"); } }
         if it % 5 == 0 { let m = gen::mutate(&mut r, &bs); o.op(format!("c05_txid_partial {}", hex(&m)), false); } } }
+    // (4b) outside the parsed domain: non-Null RingCT structs whose prunable part is absent — the library hashes a hard-coded constant
+    //      (regenerated into the model as Gen.emptyPrunableHash; by the book it is the byte-reversed Keccak of the empty string)
+    for &rct in gen::RCT_TYPES.iter() { if rct == RctType::Null { continue; } for nin in [1usize, 2] {
+        let mut s = shape_of(2, nin, 2, 1, rct, false); s.nbp = 1; let tx = gen::tx_of(&mut r, &s); o.stat("id.no-prunable");
+        described(o, format!("c05_id_noprun {}", desc::tx_desc(&tx)), Some("no-prunable")); } }
     // (5) mainnet transactions quoted in the library's own tests, and the miner transactions of the quoted blocks as embedded parses
     let (txs, blocks) = repo_literals();
-    for b in &txs { o.stat("id.mainnet"); o.op_keyed(format!("c05_txid {}", hex(b)), true, "mainnet-tx"); }
+    for b in &txs { o.stat("id.mainnet"); o.op_keyed(format!("c05_txid {}", hex(b)), true, "mainnet-tx"); if let Ok(t2) = deserialize::<Transaction>(b) { short_read_id(o, b, &t2, b.len(), "mainnet", true); } }
     for b in &blocks { if let Ok(bl) = deserialize::<Block>(b) { let hl = serialize(&bl.header).len(); o.stat("id.mainnet.miner-embedded");
         let res = o.op_keyed(format!("c05_txid_partial {}", hex(&b[hl..])), true, "mainnet-miner-tx");
         o.direct(res.starts_with(&format!("ok {} ", hex(&bl.miner_tx.hash().0))), "C05: the miner transaction parsed out of a block has the id of the embedded parse", trunc(&hex(&b[hl..]), 200), trunc(&res, 200), "same id".into()); } }
